@@ -948,7 +948,7 @@ func shrinkWire(scAny any) []any {
 func init() {
 	wireReal := append([]string{"UpdatePolicyOptions", "ValidateAuthentication", "accept-time IP filter", "rate limiting in the connection loop"}, seqReal...)
 	Register(&Prop{ID: "C14", Level: "exploration",
-		Rule: "one case = 1-3 clients each sending 3-12 calls drawn from all 22 NFSv3 and 6 MOUNT procedures (v1 and v3) with well-formed arguments against handles of a file, directory, symlink, root, a never-issued and a stale handle, or arguments truncated at a 4-byte boundary, replaced by garbage, with a length word overwritten by 2^31/2^32-1/limit+1, or with trailing words; unknown programs, versions, procedures and credential flavors; under a drawn initial policy (read-only, rate limiting with per-client burst 1, or rate limiting with generous request limits and per-operation limits of 1/s for MNT, READDIR and large I/O with those calls repeated) and, in 60% of runs, a backend call stalled for 30 ms-6 s with a policy update issued on top of it (so arriving calls hit the drain window), random scheduler, optional stream segmentation; monitor on every reply: strict RFC 1831 reply decode, XID echo, and strict decode of the result as the RFC 1813 / MOUNT result type of its procedure and status (nfsstat3 / mountstat3 membership, exact consumption); the same monitor runs in every other server-level check; non-trivial = every run (at least one reply decoded); distinct by event digest",
+		Rule: "one case = 1-3 clients each sending 3-12 calls drawn from all 22 NFSv3 and 6 MOUNT procedures (v1 and v3) with well-formed arguments against handles of a file, directory, symlink, root, a never-issued and a stale handle, or arguments truncated at a 4-byte boundary, replaced by garbage, with a length word overwritten by 2^31/2^32-1/limit+1, or with trailing words; unknown programs, versions, procedures and credential flavors; under a drawn initial policy (read-only, rate limiting with per-client burst 1, or rate limiting with generous request limits and per-operation limits of 1/s for MNT, READDIR and large I/O with those calls repeated) and, in 60% of runs, a backend call stalled for 30 ms-6 s with a policy update issued on top of it (so arriving calls hit the drain window), in 35% of runs 1-3 backend errors (EIO/ENOSPC/EACCES on a drawn or on any backend operation, once or repeating) so that the failure arms of the procedures are produced from real backend errors, random scheduler, optional stream segmentation; monitor on every reply: strict RFC 1831 reply decode, XID echo, and strict decode of the result as the RFC 1813 / MOUNT result type of its procedure and status (nfsstat3 / mountstat3 membership, exact consumption); the same monitor runs in every other server-level check; non-trivial = every run (at least one reply decoded); distinct by event digest",
 		Gen:  genC14, New: func() any { return &WireScn{} }, Run: runWire, Shrink: shrinkWire, Real: wireReal, Stubbed: seqStubbed})
 	Register(&Prop{ID: "C15", Level: "exploration",
 		Rule: "one case = 1-3 hostile connections each performing 2-7 actions from {valid call, two calls back to back, call split into up to 60 fragments incl. empty ones, two messages in one record, single bit flip, random bytes, fragment header declaring 2^31-1 bytes, credential length 2^32-1, truncated record followed by close, a record of 5-12 fragments of 512 KiB whose first fragment is a complete valid call (must be refused, never answered), READDIR/READDIRPLUS with cookies >= 2^63, 3-6 pipelined calls in one write}, under no, strict or per-operation rate limiting, plus one well-behaved probe connection, all interleaved by the random scheduler with arbitrary transport segmentation; oracle: no panic escapes any goroutine; every well-formed call is answered once, in order, with its XID (also on the probe connection afterwards); after an undecodable stream the server closes the connection within its read timeout (75 simulated s); runtime TotalAlloc growth while the server digests a hostile message stays below 8 MiB (judged in runs without megabyte-sized client traffic); after the last call nothing more arrives (a call is answered at most once); replies that do come decode strictly; non-trivial = every run; distinct by event digest",
